@@ -327,6 +327,68 @@ let op_pm_race a =
             (if o && n then "old+new" else if o then "old" else if n then "new" else "-"))
   end
 
+(* ---------------- round 6: histories - mutable ApiUser objects, requests on keep-alive connections ---------------- *)
+(* the configuration of Perm/PmUsers.v that describes this source tree (PmUsersFacts.pmu_cfg_tree ties it to the source facts) *)
+let pmu_tree : pmu_cfg = { pmu_memo = false; pmu_invalidate = false; pmu_sticky = false }
+let pmu_w : pmu_world ref = ref (pmu_world0 pmu_core0)
+let pmu_uid : int ref = ref (-1)                 (* the object the direct ops hand to the handlers (l_User) *)
+let pmu_conns : (int, pmu_conn) Hashtbl.t = Hashtbl.create 7
+let pmu_pmuser = "pmuser"
+let pmu_entries a = pm_user_of (str a "perms" "-")
+let pmu_opt_int = function Some n -> Some (pm_int_of_nat n) | None -> None
+(* after every change: the list HasPermission iterates for the object the direct ops use *)
+let pmu_sync () =
+  if !pmu_uid >= 0 then begin
+    let (perms, w') = pmu_read pmu_tree !pmu_w (pm_nat_of_int !pmu_uid) in
+    pmu_w := w'; pm_user := perms
+  end
+let pmu_do_create (w : pmu_world ref) (uid : int ref) name pass cn perms : bool =
+  let op = PmuCreate (pm_zs name, pm_zs pass, pm_zs cn, perms) in
+  match pmu_born !w.pmu_c op with
+  | None -> false
+  | Some id -> w := pmu_apply pmu_tree !w op; if name = pmu_pmuser then uid := pm_int_of_nat id; true
+let pmu_hdr_of (s : string) : pmu_hdr =
+  if s = "none" then PmuNoHdr
+  else if String.length s >= 2 && String.sub s 0 2 = "b:" then PmuBasic (pm_zs (hex_dec (String.sub s 2 (String.length s - 2))))
+  else PmuOtherScheme
+(* GET /v1/objects/<type>[/<name>] as a connection request: the handler's QueryDescription *)
+let pmu_creq_http a : pm_http = pm_http_of { a with kv = ("kind", "query") :: List.remove_assoc "kind" a.kv }
+let pmu_decide (h : pm_http) (perms : pm_entry list) () : pm_result =
+  snd (pm_filter_targets !pm_globals true perms h.ph_perm h.ph_tys h.ph_q !pm_inv)
+
+let op_pm_auser a =
+  let ok = pmu_do_create pmu_w pmu_uid (pm_hex a "name") (pm_hex a "pass") (pm_hex a "cn") (pmu_entries a) in
+  pmu_sync ();
+  emit (Printf.sprintf "pm_auser created=%s" (b01 ok))
+let pmu_named_op (w : pmu_world ref) a (mk : pm_str -> pmu_op) : bool =
+  let n = pm_zs (pm_hex a "name") in
+  match pmu_find_name !w.pmu_c n with
+  | None -> false
+  | Some _ -> w := pmu_apply pmu_tree !w (mk n); true
+let op_pm_uset a =
+  let p = pmu_entries a in
+  let ok = pmu_named_op pmu_w a (fun n -> PmuSet (n, p)) in pmu_sync (); emit ("pm_uset done=" ^ b01 ok)
+let op_pm_urestore a =
+  let ok = pmu_named_op pmu_w a (fun n -> PmuRestore n) in pmu_sync (); emit ("pm_urestore done=" ^ b01 ok)
+let op_pm_udel a =
+  let ok = pmu_named_op pmu_w a (fun n -> PmuDelete n) in pmu_sync (); emit ("pm_udel done=" ^ b01 ok)
+let op_pm_copen a =
+  let cert = if has a "cn" then Some (pm_zs (pm_hex a "cn")) else None in
+  Hashtbl.replace pmu_conns (num a "conn" 0) (pmu_connect !pmu_w.pmu_c cert)
+let op_pm_creq a =
+  let id = num a "conn" 0 in
+  let k = Hashtbl.find pmu_conns id in
+  let h = pmu_creq_http a in
+  let close = num a "close" 0 <> 0 in
+  let ((r, w'), k') = pmu_request (pmu_decide h) pmu_tree !pmu_w k (pmu_hdr_of (str a "hdr" "none")) () close in
+  pmu_w := w'; Hashtbl.replace pmu_conns id k';
+  match r with
+  | PmuClosed -> emit "pm_creq closed"
+  | Pmu401 -> emit "pm_creq code=401 eof=1"
+  | PmuAns (PmErr _) -> emit ("pm_creq code=404" ^ (if close then " eof=1" else ""))
+  | PmuAns (PmOk l) ->
+    emit (Printf.sprintf "pm_creq code=ok objs=%s%s" (pm_join_sorted (List.map (fun o -> pm_keystr (pm_key_of o)) l)) (if close then " eof=1" else ""))
+
 (* ---------------- oracle: the statement of C18 evaluated on the IMPLEMENTATION's lines ---------------- *)
 let pm_parse_keys (s : string) : ((pm_type * pm_str) list, string) result =
   let rec go acc = function
@@ -339,9 +401,26 @@ let pm_parse_keys (s : string) : ((pm_type * pm_str) list, string) result =
 
 let oracle_c18_case script trace =
   let specs = ref [] and user = ref [] and inv = ref [] and glob = ref [] in
+  (* round 6: the ApiUser objects as the script's operations leave them; `user` is the list of the object the direct ops use *)
+  let ow = ref (pmu_world0 pmu_core0) and ouid = ref (-1) and oconns : (int, pmu_conn) Hashtbl.t = Hashtbl.create 7 in
+  let olds : pm_entry list list ref = ref [] in        (* earlier permission lists of that object *)
+  let uhist : (int, pm_entry list list) Hashtbl.t = Hashtbl.create 7 in      (* per user OBJECT: the lists it has had, newest first *)
+  let osync () =
+    List.iteri (fun i _ ->
+        let cur = pmu_perms_of !ow.pmu_c (pm_nat_of_int i) in
+        match Hashtbl.find_opt uhist i with
+        | Some (x :: _) when x = cur -> ()
+        | Some l -> Hashtbl.replace uhist i (cur :: l)
+        | None -> Hashtbl.replace uhist i [cur]) !ow.pmu_c.pmu_heap;
+    if !ouid >= 0 then begin
+      let p = pmu_perms_of !ow.pmu_c (pm_nat_of_int !ouid) in
+      if p <> !user then olds := !user :: !olds;
+      user := p end in
   let tr = ref trace in
   let err = ref None in
   let fail m = if !err = None then err := Some m in
+  (* a failed judgement that an EARLIER list of the same user object would have passed *)
+  let stale (judge : pm_entry list -> bool) = if List.exists judge !olds then " decided-on-an-earlier-permission-list" else "" in
   let next li = match !tr with
     | [] -> fail (Printf.sprintf "step=%d missing-observation" li); None
     | l :: r -> tr := r; if is_bad_line l then (fail (Printf.sprintf "step=%d crash %s" li l); None) else Some l in
@@ -352,7 +431,47 @@ let oracle_c18_case script trace =
     | Some ("pm_host", a) -> specs := pm_spec_of false a :: !specs
     | Some ("pm_svc", a) -> specs := pm_spec_of true a :: !specs
     | Some ("pm_user", a) -> user := pm_user_of (str a "perms" "-")
-    | Some ("pm_load", _) -> inv := pm_build_inv !specs; ignore (next li)
+    | Some ("pm_load", _) -> inv := pm_build_inv !specs; ignore (next li);
+      ignore (pmu_do_create ow ouid pmu_pmuser "pw" "" !user); osync ()
+    | Some ("pm_auser", a) -> ignore (next li); ignore (pmu_do_create ow ouid (pm_hex a "name") (pm_hex a "pass") (pm_hex a "cn") (pmu_entries a)); osync ()
+    | Some ("pm_uset", a) -> ignore (next li); let p = pmu_entries a in ignore (pmu_named_op ow a (fun n -> PmuSet (n, p))); osync ()
+    | Some ("pm_urestore", a) -> ignore (next li); ignore (pmu_named_op ow a (fun n -> PmuRestore n)); osync ()
+    | Some ("pm_udel", a) -> ignore (next li); ignore (pmu_named_op ow a (fun n -> PmuDelete n)); osync ()
+    | Some ("pm_copen", a) ->
+      Hashtbl.replace oconns (num a "conn" 0) (pmu_connect !ow.pmu_c (if has a "cn" then Some (pm_zs (pm_hex a "cn")) else None))
+    | Some ("pm_creq", a) ->
+      (match next li with
+       | None -> ()
+       | Some l when l = "pm_creq closed" -> ()          (* nothing was granted *)
+       | Some l ->
+         let t = toks_of l in
+         let h = pmu_creq_http a in
+         let code = match tok_val t "code" with Some c -> c | None -> "?" in
+         let cu = (try (Hashtbl.find oconns (num a "conn" 0)).pmu_cuser with Not_found -> None) in
+         let hdr = pmu_hdr_of (str a "hdr" "none") in
+         (match (match tok_val t "objs" with None -> Ok [] | Some s -> pm_parse_keys s) with
+          | Error _ -> fail (Printf.sprintf "step=%d unparsable-object" li)
+          | Ok keys ->
+            let judge perms (c404, ks) =
+              let has = pm_spec_has perms h.ph_perm in
+              if not has then c404
+              else pm_oracle_q !glob perms h.ph_perm h.ph_tys h.ph_q !inv { pv_has = has; pv_cons = None; pv_res = (if c404 then None else Some ks) } in
+            let obs = if code = "401" then None else Some (code = "404", keys) in
+            if code <> "401" && code <> "404" && code <> "ok" then fail (Printf.sprintf "step=%d identity: unexpected-status %s" li code)
+            else if not (pmu_oracle_req judge !ow.pmu_c cu hdr obs) then begin
+              let who = match cu with Some u -> Some u | None -> pmu_auth !ow.pmu_c hdr in
+              match who, obs with
+              | None, Some _ -> fail (Printf.sprintf "step=%d identity: request-served-without-valid-credentials-of-its-own" li)
+              | Some _, None -> fail (Printf.sprintf "step=%d identity: valid-credentials-answered-401" li)
+              | Some u, Some o ->
+                let earlier = match Hashtbl.find_opt uhist (pm_int_of_nat u) with Some (_ :: r) -> r | _ -> [] in
+                (* another user's CURRENT list explains the answer: an identity mix-up rather than a stale list *)
+                let other = List.exists (fun i -> i <> u && judge (pmu_perms_of !ow.pmu_c i) o) !ow.pmu_c.pmu_reg in
+                if (not other) && List.exists (fun l -> judge l o) earlier then
+                  fail (Printf.sprintf "step=%d connection request of the right user, but decided-on-an-earlier-permission-list" li)
+                else fail (Printf.sprintf "step=%d identity: not-decided-on-the-permissions-of-the-user-this-request-identifies" li)
+              | _, _ -> ()
+            end))
     | Some ("pm_match", a) ->
       (match next li with
        | None -> ()
@@ -374,8 +493,9 @@ let oracle_c18_case script trace =
             if tok_val t "has2" <> tok_val t "has" then fail (Printf.sprintf "step=%d has-permission-depends-on-out-parameter" li)
             else if (tok_val t "check" = Some "ok") <> has then fail (Printf.sprintf "step=%d check-permission-disagrees-with-has-permission" li)
             else if not (pm_oracle_perm !glob !user perm !inv has keys) then
-              fail (Printf.sprintf "step=%d perm: %s" li
-                      (if has <> pm_spec_has !user perm then "has-permission-differs-from-match-spec" else "filter-admits-unpermitted-object"))))
+              fail (Printf.sprintf "step=%d perm: %s%s" li
+                      (if has <> pm_spec_has !user perm then "has-permission-differs-from-match-spec" else "filter-admits-unpermitted-object")
+                      (stale (fun u -> pm_oracle_perm !glob u perm !inv has keys)))))
     | Some ("pm_q", a) ->
       (match next li with
        | None -> ()
@@ -398,7 +518,8 @@ let oracle_c18_case script trace =
               fail (Printf.sprintf "step=%d targets: %s" li
                       (if has <> pm_spec_has !user perm then "has-permission-differs-from-match-spec"
                        else if not has then "no-permission-but-not-rejected-first"
-                       else "unpermitted-object-returned-or-forbidden-name-not-rejected"))))
+                       else "unpermitted-object-returned-or-forbidden-name-not-rejected")
+                    ^ stale (fun u -> pm_oracle_q !glob u perm tys q !inv ob))))
     | Some ("pm_http", a) ->
       (match next li with
        | None -> ()
@@ -424,9 +545,11 @@ let oracle_c18_case script trace =
             let has = pm_spec_has !user h.ph_perm in
             let acted = o @ c in
             let ob = { pv_has = has; pv_cons = None; pv_res = (if code = "404" then None else Some acted) } in
-            if (not has) && (code <> "404" || acted <> []) then fail (Printf.sprintf "step=%d http: no-permission-but-request-served" li)
+            let st () = stale (fun u -> let hs = pm_spec_has u h.ph_perm in
+                                (hs || (code = "404" && acted = [])) && pm_oracle_q !glob u h.ph_perm h.ph_tys h.ph_q !inv { ob with pv_has = hs }) in
+            if (not has) && (code <> "404" || acted <> []) then fail (Printf.sprintf "step=%d http: no-permission-but-request-served%s" li (st ()))
             else if not (pm_oracle_q !glob !user h.ph_perm h.ph_tys h.ph_q !inv ob) then
-              fail (Printf.sprintf "step=%d http: unpermitted-object-acted-on-or-forbidden-name-not-rejected" li)
+              fail (Printf.sprintf "step=%d http: unpermitted-object-acted-on-or-forbidden-name-not-rejected%s" li (st ()))
             else if not (pm_oracle_joins !glob !user !inv j) then
               fail (Printf.sprintf "step=%d http: unpermitted-joined-object-serialised" li)
           | _ -> fail (Printf.sprintf "step=%d unparsable-object" li)))
@@ -468,7 +591,7 @@ let oracle_c18_case script trace =
          let has = pm_spec_has !user h.ph_perm in
          if code <> "ok" then begin
            if code <> "404" && code <> "400" then fail (Printf.sprintf "step=%d attrs: unexpected-status" li)
-           else if (not has) && code <> "404" then fail (Printf.sprintf "step=%d attrs: no-permission-but-request-served" li)
+           else if (not has) && code <> "404" then fail (Printf.sprintf "step=%d attrs: no-permission-but-request-served%s" li (stale (fun u -> pm_spec_has u h.ph_perm)))
          end else begin
            let keys = match tok_val t "objs" with None -> Error "?" | Some s -> pm_parse_keys s in
            let jk = match tok_val t "joins" with None -> Error "?" | Some s -> pm_parse_jkeys s in
@@ -477,9 +600,10 @@ let oracle_c18_case script trace =
            (match keys, jk, ek, hid with
             | Ok o, Ok j, Ok e, Some hn ->
               let ob = { pv_has = has; pv_cons = None; pv_res = Some o } in
-              if not has then fail (Printf.sprintf "step=%d attrs: no-permission-but-request-served" li)
+              let st () = stale (fun u -> let hs = pm_spec_has u h.ph_perm in hs && pm_oracle_q !glob u h.ph_perm h.ph_tys h.ph_q !inv { ob with pv_has = hs }) in
+              if not has then fail (Printf.sprintf "step=%d attrs: no-permission-but-request-served%s" li (st ()))
               else if not (pm_oracle_q !glob !user h.ph_perm h.ph_tys h.ph_q !inv ob) then
-                fail (Printf.sprintf "step=%d attrs: unpermitted-object-acted-on-or-forbidden-name-not-rejected" li)
+                fail (Printf.sprintf "step=%d attrs: unpermitted-object-acted-on-or-forbidden-name-not-rejected%s" li (st ()))
               else if not (pm_oracle_aq !glob !user !inv j [] (z_of_int 0)) then
                 fail (Printf.sprintf "step=%d attrs: unpermitted-joined-object-serialised" li)
               else if not (pm_oracle_aq !glob !user !inv [] e (z_of_int 0)) then
@@ -502,6 +626,7 @@ let () =
   register_op "pm_user" (fun a -> pm_user := pm_user_of (str a "perms" "-"));
   register_op "pm_glob" (fun a -> pm_globals := pm_glob_add (pm_glob_of a) !pm_globals);
   register_op "pm_load" (fun _ ->
+    ignore (pmu_do_create pmu_w pmu_uid pmu_pmuser "pw" "" !pm_user);
     pm_inv := pm_build_inv !pm_specs;
     emit (Printf.sprintf "pm_load n=%d" (List.length !pm_inv)));
   register_op "pm_perm" op_pm_perm;
@@ -510,5 +635,13 @@ let () =
   register_op "pm_fields" op_pm_fields;
   register_op "pm_aq" op_pm_aq;
   register_op "pm_race" op_pm_race;
-  register_case_end (fun () -> pm_specs := []; pm_inv := []; pm_user := []; pm_globals := []);
+  register_op "pm_auser" op_pm_auser;
+  register_op "pm_uset" op_pm_uset;
+  register_op "pm_urestore" op_pm_urestore;
+  register_op "pm_udel" op_pm_udel;
+  register_op "pm_copen" op_pm_copen;
+  register_op "pm_creq" op_pm_creq;
+  register_op "pm_cclose" (fun a -> Hashtbl.remove pmu_conns (num a "conn" 0));
+  register_case_end (fun () -> pm_specs := []; pm_inv := []; pm_user := []; pm_globals := [];
+                               pmu_w := pmu_world0 pmu_core0; pmu_uid := -1; Hashtbl.reset pmu_conns);
   register_oracle "C18" oracle_c18_case
